@@ -293,6 +293,11 @@ def special_units():
     # two-dimensional array member: reshaping it at constant size is an ABI change that leaves every size and offset alone
     us.append(Unit([("struct", "S", [("m", ("a", ("a", ("b", "int"), 3), 2), None), ("k", ("b", "int"), None)])],
                    {"name": "f", "ret": ("b", "int"), "params": [("a", ("p", ("s", "S")))], "variadic": False}, tag="array/2d-member"))
+    # parameters whose type is a typedef, taken by value (top-level cv-qualifiers on them are harmless changes)
+    us.append(Unit([("typedef", "MU", ("b", "unsigned"))],
+                   {"name": "f", "ret": ("b", "int"), "params": [("x", ("t", "MU")), ("y", ("b", "int"))], "variadic": False}, tag="typedef/byval-scalar"))
+    us.append(Unit([("struct", "S", [("v", ("b", "int"), None)]), ("typedef", "SP", ("p", ("s", "S")))],
+                   {"name": "f", "ret": ("b", "int"), "params": [("p", ("t", "SP"))], "variadic": False}, tag="typedef/byval-pointer"))
     return us
 
 
@@ -431,12 +436,13 @@ def harmless_edits(u):
             out.append(("append-enumerator", v))
     if u.fn:
         for k, (n, t) in enumerate(u.fn["params"]):
-            if t[0] in "bse" or t[0] == "p":
-                v = u.clone()
-                ps = list(u.fn["params"])
-                ps[k] = (n, ("c", t))
-                v.fn["params"] = ps
-                out.append(("toplevel-const-param@%d" % k, v))
+            if t[0] in "bset" or t[0] == "p":
+                for q, qn in (("c", "const"), ("v", "volatile")):
+                    v = u.clone()
+                    ps = list(u.fn["params"])
+                    ps[k] = (n, (q, t))
+                    v.fn["params"] = ps
+                    out.append(("toplevel-%s-param@%d" % (qn, k), v))
                 break
     for j, dd in enumerate(u.types):
         if dd[0] == "typedef" and dd[1] == "T":
